@@ -273,7 +273,12 @@ def build_bytes_from_sse(event: ServerSentEvent, charset: str) -> bytes:
     """
     data: Iterable[bytes]
     if "data" in event:
-        data = (f"data: {_}".encode(charset) for _ in event.pop("data").splitlines())
+        # Only CR, LF and CRLF end a line in an event stream; str.splitlines()
+        # would also split at VT, FF, NEL, U+2028, ...
+        data = (
+            f"data: {_}".encode(charset)
+            for _ in re.split(r"\r\n|\r|\n", event.pop("data"))
+        )
     else:
         data = ()
     return b"\n".join(
